@@ -76,7 +76,26 @@ def _prepare(tier):
         code = S.render_def(_rename(s, mapping))
         mods.append(griffe.visit("m", filepath=Path("m.py"), code=code))
     _state[tier] = (griffe, sigs, shapes, masks, mods, mapping)
+    _state[(tier, "dyn")] = _dynamic_mods(griffe, sigs, mapping) if tier == "quick" else None
     return _state[tier]
+
+
+def _dynamic_mods(griffe, sigs, mapping):
+    """The same definitions loaded by runtime inspection (one file per signature, imported from a scratch directory)."""
+    import sys
+
+    from mc.core import sandbox
+
+    out = []
+    with sandbox.scratch_dir("c10dyn") as d, sandbox.interpreter_state():
+        for i, s in enumerate(sigs):
+            with open(f"{d}/c10dyn_{i}.py", "w") as f:
+                f.write(S.render_def(_rename(s, mapping)))
+        for i in range(len(sigs)):
+            mod = griffe.inspect(f"c10dyn_{i}", filepath=Path(f"{d}/c10dyn_{i}.py"), import_paths=[d])
+            out.append(mod)
+            sys.modules.pop(f"c10dyn_{i}", None)
+    return out
 
 
 def _mod_for(griffe, sig, mapping):
@@ -260,6 +279,14 @@ def run_shard(shard, tier):
         old = sigs[i]
         for j, new in enumerate(sigs):
             probs, kinds = judge(griffe, old, new, masks[i], masks[j], mods[i], mods[j], inv)
+            dyn = _state.get((tier, "dyn"))
+            if dyn is not None:
+                # the same two definitions loaded by runtime inspection: the comparison must say the same
+                kinds_dyn = sorted(b.kind.value for b in griffe.find_breaking_changes(dyn[i], dyn[j]) if b.obj.name == "f")  # (not the module's own dunder attributes)
+                if kinds_dyn != sorted(kinds):
+                    lost, extra = sorted(set(kinds) - set(kinds_dyn)), sorted(set(kinds_dyn) - set(kinds))
+                    acc.violation(f"dynamic-differs/{'lost:' + lost[0] if lost else 'extra:' + extra[0] if extra else 'count'}", f"def f({S.render_params(old)}) -> def f({S.render_params(new)}): visited trees report {sorted(kinds)}, inspected trees {kinds_dyn}",
+                                  {"old": S.render_params(old), "new": S.render_params(new), "old_sig": old, "new_sig": new, "dynamic": True}, None, size=len(old) + len(new))
             broken = bool(masks[i] & ~masks[j])
             outcome = ("breaking" if broken else "compatible") + ("+reported" if kinds else "+silent")
             acc.case({"old": S.render_params(old), "new": S.render_params(new)}, outcome=outcome,
@@ -293,13 +320,21 @@ def replay(case):
     names = sorted({p[0] for p in old} | {p[0] for p in new} | {"a"})
     shapes = S.call_shapes(names, 4)
     ident = {n: n for n in "abcdefghijklmnopqrstuvwxyz"}
+    if case.get("dynamic"):
+        dyn = _dynamic_mods(griffe, [old, new], ident)
+        kinds_dyn = sorted(b.kind.value for b in griffe.find_breaking_changes(dyn[0], dyn[1]) if b.obj.name == "f")
+        kinds_st = sorted(b.kind.value for b in griffe.find_breaking_changes(_mod_for(griffe, old, ident), _mod_for(griffe, new, ident)))
+        if kinds_dyn == kinds_st:
+            return []
+        lost, extra = sorted(set(kinds_st) - set(kinds_dyn)), sorted(set(kinds_dyn) - set(kinds_st))
+        return [(f"dynamic-differs/{'lost:' + lost[0] if lost else 'extra:' + extra[0] if extra else 'count'}", f"visited {kinds_st}, inspected {kinds_dyn}", None)]
     probs, kinds = judge(griffe, old, new, S.accept_mask(old, shapes), S.accept_mask(new, shapes),
                          _mod_for(griffe, old, ident), _mod_for(griffe, new, ident), ident)
     return [(_key_for(k, i, old, new), f"{k} {i}: ({S.render_params(old)}) -> ({S.render_params(new)}); reported={kinds}", None) for k, i in probs]
 
 MANIFEST = {
     "category": "exploration",
-    "text": "Bounded exhaustive exploration: every ordered pair of legal signatures over 2 (quick) / 3 (thorough) names with up to 2 / 3 parameters, all five kinds, defaults none/0/1, is diffed with the real find_breaking_changes and judged against every call shape by really calling compiled defs in CPython. Complete inside the bound, silent outside it.",
+    "text": "Bounded exhaustive exploration: every ordered pair of legal signatures (visited; in the quick tier also loaded by runtime inspection, whose comparison must say the same) over 2 (quick) / 3 (thorough) names with up to 2 / 3 parameters, all five kinds, defaults none/0/1, is diffed with the real find_breaking_changes and judged against every call shape by really calling compiled defs in CPython. Complete inside the bound, silent outside it.",
     "note": "Trusts CPython 3.12 as the binder and the alpha-renaming argument for identifiers outside the alphabet; says nothing about signatures with more parameters than the bound.",
     "technique": "model checking by exhaustive small-scope enumeration of signature pairs x call shapes on the real code, CPython as oracle",
 }
